@@ -296,6 +296,7 @@ GEN_UNITS = {  # property -> units of Gen/Source.v its source-level theorems are
     "C16": ["get_dim_range", "get_coord_index"],
     "C17": ["get_dim_range", "crop_dim"],
     "C20": ["get_coord_index"],
+    "C07": ["match_geometries_tail"],
     "C08": ["iterate_over_valid_clips"],
     "C09": ["iterate_over_valid_clips"],
 }
